@@ -53,7 +53,9 @@ def hostile_message(r):
         hdr += b'Content-Type: multipart/' + r.choice([b'mixed', b'alternative', b'x"y']) + b'; boundary="' + b.replace(b'"', b'\\"') + b'"' + eol
         body = b''
         for _ in range(r.randint(0, 3)):
-            body += b'--' + b + eol + hostile_message(r) + eol
+            # now and then a part with no lines at all (a delimiter directly followed by the next) or a header-less part
+            inner = r.choice([b'', eol, eol + b'text' + eol]) if r.random() < 0.2 else hostile_message(r) + eol
+            body += b'--' + b + eol + inner
         body += b'--' + b + b'--' + eol
         return hdr + eol + body
     if r.random() < 0.2:
